@@ -243,7 +243,11 @@ func (r *Report) finish() int {
 			fmt.Printf("KNOWN-FINDING: property=%s rule=%s %s — %s [%s]\n", r.Prop, o.Rule, o.Key, o.By, o.At)
 		}
 	}
-	vdir := filepath.Join(r.verifDir, "evidence", "violations")
+	evDir := filepath.Join(r.verifDir, "evidence")
+	if d := os.Getenv("IMVERIF_EVIDENCE"); d != "" {
+		evDir = d // scratch runs against variants must not overwrite the evidence of /repo
+	}
+	vdir := filepath.Join(evDir, "violations")
 	// clear old replay files of this property
 	if ents, err := os.ReadDir(vdir); err == nil {
 		for _, e := range ents {
@@ -326,8 +330,8 @@ func (r *Report) finish() int {
 		"violations":  len(viol) + len(r.fatal),
 	}
 	b, _ := json.MarshalIndent(ev, "", " ")
-	os.MkdirAll(filepath.Join(r.verifDir, "evidence"), 0o755)
-	if err := os.WriteFile(filepath.Join(r.verifDir, "evidence", r.Prop+".json"), b, 0o644); err != nil {
+	os.MkdirAll(evDir, 0o755)
+	if err := os.WriteFile(filepath.Join(evDir, r.Prop+".json"), b, 0o644); err != nil {
 		fmt.Println("cannot write evidence:", err)
 		return 2
 	}
